@@ -253,8 +253,20 @@ class Trace:
 
 
 # ------------------------------------------------------------------ running
+SHARD_TIMEOUT = 900 if os.environ.get("VERIF_TIER", "quick") != "thorough" else 5400
+
+
 def _run_shard(binary, args, path):
-    p = subprocess.run([binary] + args + [path], capture_output=True)
+    # backstop: a shard of histories is given a wall-clock limit; what it printed until then is used, the histories it did not
+    # finish are missing from the result (and reported as such by the comparison)
+    pr = subprocess.Popen([binary] + args + [path], stdout=subprocess.PIPE, stderr=subprocess.PIPE)
+    try:
+        so, se = pr.communicate(timeout=SHARD_TIMEOUT)
+    except subprocess.TimeoutExpired:
+        pr.kill()
+        so, se = pr.communicate()
+        se += b"\nshard killed after %d s" % SHARD_TIMEOUT
+    p = type("P", (), {"stdout": so, "stderr": se})
     recs = {}
     for ln in p.stdout.decode("utf-8", "replace").splitlines():
         if not ln.startswith("{"):
